@@ -325,3 +325,36 @@ def _validator_by_paths(prog, g):
     if acc[-1] >= top - 1:
         return ("unknown",)
     return ("set", acc)
+
+
+def reach_following_consts(f, start, limit=400):
+    """blocks reachable from `start`, resolving switches on locals that were assigned a constant on the way (the temporary bool
+    of `matches!` / `a && b`)"""
+    seen, out, work = set(), set(), [(start, ())]
+    n = 0
+    while work and n < limit * 4:
+        n += 1
+        x, env = work.pop()
+        if (x, env) in seen or f.blocks[x]["cleanup"]:
+            continue
+        seen.add((x, env))
+        out.add(x)
+        e = dict(env)
+        for st in f.blocks[x]["stmts"]:
+            if st["k"] == "assign" and not st["place"]["p"]:
+                c = const_int(st["rv"]["op"]) if st["rv"]["k"] == "use" else None
+                if c is not None:
+                    e[st["place"]["l"]] = c
+                else:
+                    e.pop(st["place"]["l"], None)
+        tt = f.blocks[x]["term"]
+        nxt = f.succs(x)
+        if tt["k"] == "switch" and op_local(tt["discr"]) in e:
+            v = e[op_local(tt["discr"])]
+            tg = [tg for vv, tg in tt["targets"] if int(vv) == v]
+            nxt = tg if tg else [tt["otherwise"]]
+        if tt["k"] == "call" and not tt["dest"]["p"]:
+            e.pop(tt["dest"]["l"], None)
+        for y in nxt:
+            work.append((y, tuple(sorted(e.items()))))
+    return out
